@@ -21,6 +21,8 @@ C1 == { [k |-> kk, e |-> c] : kk \in {"list", "set", "map"}, c \in R0 }
       \cup { [k |-> "tuple", es |-> <<a, b>>] : a, b \in R0 } \cup { [k |-> "tuple", es |-> <<>>] }
       \cup { [k |-> "obj", as |-> <<[req |-> ra, c |-> a], [req |-> rb, c |-> b]>>] : ra, rb \in Flags, a, b \in R0 }
       \cup { [k |-> "obj", as |-> <<>>] }
+      \cup { [k |-> "obj", as |-> <<[req |-> f1, c |-> a], [req |-> f2, c |-> b], [req |-> f3, c |-> a], [req |-> f4, c |-> b]>>] :
+               f1, f2, f3, f4 \in Flags, a \in {[k |-> "lit", t |-> Ty("string")]}, b \in {[k |-> "lit", t |-> Ty("string")], [k |-> "any", t |-> Ty("number")]} }
       \cup { [k |-> "oneOf", cs |-> <<a, b>>] : a, b \in R0 }
 R1 == { [k |-> "map", e |-> [k |-> "lit", t |-> Ty("string")]], [k |-> "list", e |-> [k |-> "ref"]],
         [k |-> "obj", as |-> <<[req |-> FALSE, c |-> [k |-> "lit", t |-> Ty("string")]], [req |-> TRUE, c |-> [k |-> "any", t |-> Ty("number")]]>>],
